@@ -17,6 +17,12 @@ fn conc_mix(prop: &str) -> Mix {
         "C04" => {
             m = Mix { append: 2, overwrite: 0, delete: 25, update: 25, merge: 18, merge_partial: 10, compact: 4, create_index: 0, optimize: 0, drop_index: 0, add_col: 0, drop_col: 0, rename_col: 0, config: 0, restore: 0 };
         }
+        "C07" => {
+            m = Mix { append: 16, overwrite: 0, delete: 8, update: 12, merge: 12, merge_partial: 0, compact: 4, create_index: 0, optimize: 0, drop_index: 0, add_col: 0, drop_col: 0, rename_col: 0, config: 0, restore: 22 };
+        }
+        "C18" => {
+            m.restore = 4;
+        }
         "C24" => {
             m = Mix { append: 6, overwrite: 0, delete: 6, update: 10, merge: 6, merge_partial: 22, compact: 12, create_index: 25, optimize: 8, drop_index: 0, add_col: 0, drop_col: 0, rename_col: 0, config: 0, restore: 0 };
         }
@@ -95,6 +101,7 @@ pub async fn run_conc(cfg: RunCfg) -> RunResult {
         }
     }
     let mix = conc_mix(&cfg.prop);
+    let first_base = r.ds.version().version;
     let rounds = if cfg.thorough() { r.rng.range(2, 4) } else { r.rng.range(1, 2) } as u64;
     let mut ihash = 0u64;
     let mut overlapped = false;
@@ -252,9 +259,26 @@ pub async fn run_conc(cfg: RunCfg) -> RunResult {
             if r.cfg.prop == "C24" {
                 r.o_index_diff(10).await;
             }
-            if r.cfg.prop == "C18" {
+            if matches!(r.cfg.prop.as_str(), "C18" | "C07") {
+                let latest = r.ds.version().version;
+                for v in (first_base + 1)..latest {
+                    r.o_rowids_version(v, "concurrent-round").await;
+                }
                 r.o_rowids("concurrent-round").await;
                 r.o_take("concurrent-round").await;
+                // writes after the round must not re-issue identities handed out during it
+                for _ in 0..2 {
+                    let versions: Vec<u64> = r.history.keys().cloned().collect();
+                    let op = {
+                        let Runner { gen, rng, st, .. } = &mut r;
+                        let m = Mix { append: 10, overwrite: 0, delete: 0, update: 4, merge: 6, merge_partial: 0, compact: 0, create_index: 0, optimize: 0, drop_index: 0, add_col: 0, drop_col: 0, rename_col: 0, config: 0, restore: 0 };
+                        gen.gen_op(rng, st, &m, &versions)
+                    };
+                    r.step += 1;
+                    r.do_op(&op).await;
+                    r.o_scan(crate::e1::prop_for_op(&op), "after-round").await;
+                    r.o_rowids("after-round").await;
+                }
             }
             r.o_time_travel(3).await;
         })
@@ -492,6 +516,7 @@ fn txn_op_matches(txn_op: &str, op: &Op) -> bool {
         Op::Compact { .. } => &["Rewrite", "ReserveFragments"],
         Op::CreateIndex { .. } | Op::OptimizeIndices { .. } | Op::DropIndex { .. } => &["CreateIndex"],
         Op::UpdateConfig { .. } => &["UpdateConfig"],
+        Op::Restore { .. } => &["Restore"],
         _ => &[],
     };
     txn_op.is_empty() || want.contains(&txn_op)
@@ -506,6 +531,15 @@ fn apply_effect(r: &Runner, cur: &TableState, o: &PartyOutcome, rv: u64) -> Resu
     let mut post = st_r.clone();
     if let Err(e) = model_apply(&mut post, &o.op, &r.history) {
         return Err(format!("operation invalid at read version {}: {}", rv, e));
+    }
+    if let Op::Restore { .. } = &o.op {
+        // a restore is compatible with everything: whatever committed before it is replaced by
+        // the restored version's contents
+        if post.cols != cur.cols {
+            return Err("schema change in concurrent round not modelled".into());
+        }
+        post.order_exact = false;
+        return Ok(post);
     }
     let mut next = cur.clone();
     if st_r.cols != post.cols || st_r.cols != cur.cols {
